@@ -387,6 +387,22 @@ static void bowls(unsigned long long& unit, Stats& st)
 								if(mc::library_exits([&]() { r1b = M1.minimize(s1b, scale, fn); })) mc::violation("bowls", "bowls|" + ck + "|valid_request_terminated_process", "second use of one Minimization object ended the process", g_current);
 								else if(r1b != r1 || !mc::same_bits(M1.fmin, fm1) || M1.nfunc != nf1) mc::violation("bowls", "bowls|" + ck + "|used_object_differs_from_fresh", "second minimize() on the same object: nfunc " + std::to_string(M1.nfunc) + " vs " + std::to_string(nf1) + ", fmin " + mc::dec(M1.fmin) + " vs " + mc::dec(fm1), g_current);
 							}
+							// the restart at the claimed minimum, written with the object's own best vertex as the argument (it aliases the object's
+							// state): the result is that of the same restart from a copy of that vertex
+							{
+								Minimization Ma(ftol), Mb(ftol);
+								Vec sa = start, sb = start, ra, rb, ra2, rb2, dls(d, 0.1 * scale);
+								if(mc::library_exits([&]() {
+									   Ma.minimize(sa, scale, fn); Mb.minimize(sb, scale, fn);
+									   Vec copy = Mb.current_simplex[0];
+									   ra = Ma.minimize(Ma.current_simplex[0], 0.1 * scale, fn); rb = Mb.minimize(copy, 0.1 * scale, fn);
+									   Vec copy2 = Mb.current_simplex[0];
+									   ra2 = Ma.minimize(Ma.current_simplex[0], dls, fn); rb2 = Mb.minimize(copy2, dls, fn);
+								   }))
+									mc::violation("bowls", "bowls|" + ck + "|valid_request_terminated_process", "a restart from the object's own best vertex ended the process", g_current);
+								else if(ra != rb || ra2 != rb2 || !mc::same_bits(Ma.fmin, Mb.fmin) || Ma.nfunc != Mb.nfunc)
+									mc::violation("bowls", "bowls|" + ck + "|restart_from_own_vertex_differs_from_restart_from_a_copy", "minimize(M.current_simplex[0], delta, f) differs from minimize(copy of that vertex, delta, f): fmin " + mc::dec(Ma.fmin) + " vs " + mc::dec(Mb.fmin), g_current);
+							}
 							// unequal displacements: the vector overload builds the simplex start, start + deltas[i] e_i
 							if(d >= 2)
 							{
